@@ -265,12 +265,12 @@ def st_js_case(draw):
     pieces = head + [p for cl in clauses for p in cl]
     text = pieces[0]
     for p in pieces[1:]:
-        sep = draw(st.sampled_from([' ', ' ', '  ', '\t', '\n', ' \n ', '\n// comment select where\n', '\n  // x\n']))
+        sep = draw(st.sampled_from([' ', ' ', '  ', '\t', '\n', ' \n ', '\n// comment select where\n', '\n  // x\n', '\r\n', '\n\t// tab-indented comment\n', '\r\n// c\r\n', '\r\n\t']))
         if sep != ' ':
             kinds.add('whitespace/comments')
         text += sep + p
     if draw(st.booleans()):
-        text += draw(st.sampled_from([';', ' ;', '\n;']))
+        text += draw(st.sampled_from([';', ' ;', '\n;', ';\r\n', '\r\n;\r\n', ';\n\t// end\n']))
         kinds.add('semicolon')
     return {'case': case, 'q2': q2, 'text': text, 'kinds': sorted(kinds), 'content': content if use_lit else None}
 
